@@ -17,6 +17,7 @@ CONSTANTS
   MaxOverlap = 0
   PreArch <- NoPreArch
   Gz = FALSE
+  OsFail = FALSE
   BufFloor = 99
   Hist = FALSE
 SPECIFICATION TSpec
